@@ -325,6 +325,8 @@ type caseState struct {
 	stopped   bool
 	userDecls map[string]bool // texts of declarations the edit pass wrote (for counters)
 	history   []any
+	// rootEdited: the user's version of the follow-schema root resolver file ("" = not edited)
+	rootEdited string
 }
 
 func (rn *runner) config(c caseSpec, pkg string) string {
@@ -338,6 +340,10 @@ func (rn *runner) config(c caseSpec, pkg string) string {
 	}
 	if c.Layout == "follow" {
 		fmt.Fprintf(&b, "resolver:\n  layout: follow-schema\n  dir: %s\n  package: %s\n  filename_template: \"{name}.resolvers.go\"\n", dir, rpkg)
+		if rf := rootFileName(c); rf != "resolver.go" {
+			// a custom name for the root resolver file (written once, then the user's)
+			fmt.Fprintf(&b, "  filename: %s\n", filepath.Join(dir, rf))
+		}
 	} else {
 		fmt.Fprintf(&b, "resolver:\n  layout: single-file\n  filename: %s\n  package: %s\n  type: Resolver\n", filepath.Join(dir, "resolver.go"), rpkg)
 	}
@@ -346,6 +352,14 @@ func (rn *runner) config(c caseSpec, pkg string) string {
 	}
 	b.WriteString("skip_mod_tidy: true\nskip_validation: true\n")
 	return b.String()
+}
+
+// rootFileName: the file holding `type Resolver struct{}` in the follow-schema layout.
+func rootFileName(c caseSpec) string {
+	if c.Layout == "follow" && c.Idx%3 == 1 {
+		return "root.go"
+	}
+	return "resolver.go"
 }
 
 func readResolverFiles(dir string) map[string]string {
@@ -438,6 +452,21 @@ func (rn *runner) runCase(c caseSpec, warmed func()) {
 	if crlf {
 		rep.Count("cases_with_crlf_resolver_files", 1)
 	}
+	// the user gives the root resolver struct its dependencies (what the generated comment in that
+	// file asks for); follow-schema writes this file once and must leave it alone afterwards
+	rootEdited := ""
+	if c.Layout == "follow" {
+		rp := filepath.Join(st.resDir, rootFileName(c))
+		if b, err := os.ReadFile(rp); err == nil && strings.Contains(string(b), "type Resolver struct{}") {
+			rootEdited = strings.Replace(string(b), "type Resolver struct{}", "type Resolver struct {\n\tStore map[string]int\n}\n\n// NewResolver wires the dependencies.\nfunc NewResolver() *Resolver { return &Resolver{Store: map[string]int{}} }", 1)
+			os.WriteFile(rp, []byte(rootEdited), 0o644)
+			rep.Count("cases_with_user_edited_root_resolver_file", 1)
+			if rootFileName(c) != "resolver.go" {
+				rep.Count("cases_with_custom_root_resolver_filename", 1)
+			}
+		}
+	}
+	st.rootEdited = rootEdited
 	ok, bout, to := rn.goBuild(st.dir)
 	if warmed != nil {
 		warmed() // the private build cache now holds std + the gqlgen runtime packages
@@ -660,6 +689,17 @@ func (rn *runner) step(st *caseState, si int, prev, next *schema, ops []evoOp) {
 			if strings.Contains(d.Text, "*/") {
 				termFiles[n] = append(termFiles[n], d.Kind+" "+d.Name+d.Key)
 			}
+		}
+	}
+
+	// --- the user's root resolver file (follow-schema) is never regenerated
+	if st.rootEdited != "" {
+		now, _ := os.ReadFile(filepath.Join(st.resDir, rootFileName(c)))
+		if string(now) != st.rootEdited {
+			rep.Violate("user-edited-root-resolver-file-changed", detail("the follow-schema root resolver file ("+rootFileName(c)+") that the user had edited was rewritten by regeneration", map[string]any{"before": st.rootEdited, "after": string(now)}))
+			st.rootEdited = string(now)
+		} else {
+			rep.Count("root_resolver_file_unchanged_after_regeneration", 1)
 		}
 	}
 
